@@ -3,6 +3,8 @@ package main
 // Contract-level stubs for code that is not encoded (listed in evidence as part of the claim).
 
 import (
+	"crypto/sha1"
+	"encoding/base64"
 	"encoding/json"
 	"go/types"
 
@@ -133,3 +135,10 @@ func addStubIntrinsics(t map[string]Intrinsic) {
 		return nil
 	}
 }
+
+func sha1Sum(b []byte) []byte {
+	h := sha1.Sum(b)
+	return h[:]
+}
+
+func b64Encode(b []byte) string { return base64.StdEncoding.EncodeToString(b) }
